@@ -71,6 +71,10 @@ func c17Scenarios(level int) []c17Scenario {
 		{"monitor registration vs transaction", [][][]rm.Op{{inc("a")}, {monitor}}, 0},
 		{"monitor registration vs two transactions", [][][]rm.Op{{inc("a"), inc("b")}, {monitor}}, 1},
 		{"two transactions per client", [][][]rm.Op{{inc("a"), inc("b")}, {{opMutate("C", c17C, "cnt", "*=", one(2))}}}, 1},
+		// transactions of one kind of operation only (a server may be tempted to treat some kinds as read-only)
+		{"counter: 2 x (mutate cnt+=1; select)", [][][]rm.Op{{{opMutate("C", c17C, "cnt", "+=", one(1)), {Op: "select", Table: "C", Columns: []string{"cnt"}}}}, {{opMutate("C", c17C, "cnt", "+=", one(1)), {Op: "select", Table: "C", Columns: []string{"cnt"}}}}}, 1},
+		{"mutate-only: cnt+=1 vs cnt*=2 vs select", [][][]rm.Op{{{opMutate("C", c17C, "cnt", "+=", one(1))}}, {{opMutate("C", c17C, "cnt", "*=", one(2))}}, {{{Op: "select", Table: "C", Columns: []string{"cnt"}}}}}, 0},
+		{"reference moved by mutations only", [][][]rm.Op{{{opMutate("P", c17P[1], "qs", "insert", uset(c17Q))}}, {{opMutate("P", c17P[0], "qs", "delete", uset(c17Q))}}}, 1},
 	}
 	if level > 0 {
 		s = append(s,
